@@ -252,6 +252,10 @@ def gen_oracle(rng):
         f = rng.choice(F2_ORACLE)
         pool = ORACLE_NUMS[:38] if rng.random() < 0.75 else ORACLE_SYMS[:12] + ORACLE_NUMS[:12]
         a, b = rng.choice(pool), rng.choice(pool)
+        if f in ("lowergamma", "uppergamma") and rng.random() < 0.6:
+            # the recursion on s: integers and half-integers of both signs, upward and downward branch
+            a = rng.choice(["(q 1 2)", "(q -1 2)", "(q 3 2)", "(q -3 2)", "(q 5 2)", "(q -5 2)", "(q 7 2)", "(q -7 2)", "(i 1)", "(i 2)", "(i 3)", "(i 4)"])
+            b = rng.choice(["x", "(i 2)", "(q 1 3)", "(q 5 2)", "(i 3)", "(mul (i 2) x)", "(add x (i 3))", "(i 1)"])
         if f == "atan2":
             if rng.random() < 0.5:
                 a = rng.choice(SPECIAL + ["x", "(neg x)", "(mul (sqrt (i 3)) x)"])
@@ -285,7 +289,8 @@ CORPUS = [
     "O acot (i -1)", "O acot (neg (sqrt (i 3)))", "O digamma (q 4 3)", "O digamma (q 5 4)", "O digamma (q 1 3)",
     "O digamma (q -1 2)", "O digamma (c 1 1 1 1)", "O beta (q 1 2) (q 1 2)", "O beta x (sub (i 1) x)",
     "O beta (q 1 2) (q -1 2)", "O zeta (i 2) (i 0)", "O uppergamma (i 0) x", "O uppergamma (i -1) x", "O atan2 x x",
-    "O lambertw (div (f1 log (i 2)) (i -2))", "O erfc (neg x)", "O zeta (i -3)", "O zeta (i 4)", "O lowergamma (q 3 2) x",
+    "O lambertw (div (f1 log (i 2)) (i -2))", "O erfc (neg x)", "O zeta (i -3)", "O zeta (i 4)", "O lowergamma (q 3 2) x", "O lowergamma (q -1 2) x", "O lowergamma (q -3 2) (i 2)", "O lowergamma (q -5 2) (q 1 3)",
+    "O lowergamma (q 7 2) (q 5 2)", "O uppergamma (q -1 2) x", "O uppergamma (q -3 2) (i 2)", "O uppergamma (q 5 2) (q 1 3)",
     "O uppergamma (i 3) x", "O polygamma (i 1) (i 3)", "O max x (i 3) y", "O floor (add x (i 3))", "O gamma (q 23 2)",
     "O ceiling (add (f1 floor x) (i 1))", "O floor (c 1 2 1 3)", "O sign (c 1 1 2 1)",
 ]
